@@ -48,7 +48,9 @@ def main():
             "level_note": m.get("level_note", "; ".join(m.get("trusted_base", []) + m.get("assumptions", []))),
             "technique": m.get("technique", "static analysis: custom rustc_private MIR fact extractor; rules evaluated on units (entry points with crate-local helpers, closures, "
                                            "awaits and std combinators spliced / expanded into one normal form, jump-threaded): CFG dominance, edge-labelled "
-                                           "must-pass-through, def-use slicing, who-may-call, and finite-domain abstract evaluation of decision tables; nothing is executed"),
+                                           "must-pass-through, def-use slicing, who-may-call, and finite-domain abstract evaluation of behavioural decision tables "
+                                           "(abstract sequences / maps / cells / locations, nondeterministic steps, event logs; outcomes compared with a reference "
+                                           "written from the property, for process_all as trace equivalence); nothing is executed, no solver is involved"),
         })
     man = {
         "version": 1,
@@ -67,7 +69,7 @@ def main():
             "kind_free_text": "static analysis: rustc_private driver dumping mir_built facts (resolved callees, CFG, types, impl tables) of /repo's "
                               "current tree per feature configuration + Python rule engine (MIR splicer / normaliser for units, dominance, edge-labelled "
                               "must-pass-through, backward slicing, call-graph reachability, who-may-call, sibling agreement, type-table queries, "
-                              "finite-domain abstract evaluation of decision tables)",
+                              "finite-domain abstract evaluation of behavioural decision tables over abstract containers, cells and locations)",
         }],
         "checks": checks,
         "not_applicable": na,
